@@ -269,8 +269,11 @@ def switch_case(case):
             d.is_open = True
             l.connected = False
             ops.append(f"fail swclose {pre} {fr(tR)}")
+            r0 = hours(sw.remaining_repair_time)
             sw.close(T(1, 3))
             impl.append(f"{devname(sw.state)} {fr(hours(sw.remaining_repair_time))} {fb(not d.is_open)}")
+            if s0 == "REPAIR" and (sw.state.name != "REPAIR" or hours(sw.remaining_repair_time) != r0):
+                viols.append(("switch.close-under-repair", f"closing the disconnector of a switch under repair with {r0} h left changed its recovery: now {sw.state.name} with {hours(sw.remaining_repair_time)} h left (time runs down by the step only)"))
         sig.add((st["op"], s0, sw.state.name))
     return dict(ops=ops, impl=impl, viols=viols[:3], nontrivial=("switch", tuple(sorted(sig))), tag="switch")
 
